@@ -249,6 +249,15 @@ func mayBeNilError(v ssa.Value, seen map[ssa.Value]bool) bool {
 		return false
 	case *ssa.MakeInterface:
 		return false
+	case *ssa.Call:
+		// constructors of errors never return nil
+		if f := x.Call.StaticCallee(); f != nil && f.Pkg != nil {
+			switch f.Pkg.Pkg.Path() + "." + f.Name() {
+			case "fmt.Errorf", "errors.New":
+				return false
+			}
+		}
+		return true
 	case *ssa.UnOp:
 		// load of a global error variable (ErrFoo): non-nil
 		if g, ok := x.X.(*ssa.Global); ok {
